@@ -473,7 +473,8 @@ impl Sut {
                 let mut want: Vec<u32> = gone.iter().map(|&u| u as u32).collect();
                 want.sort();
                 if dropped != want {
-                    return Err(v(&["C08"], format!("{}: payloads dropped {:?}, expected exactly {:?}", op_str(op), dropped, want)));
+                    // dropping the payload of a node is how its deletion shows: too many or too few is also a C04 failure
+                    return Err(v(&["C08", "C04"], format!("{}: payloads dropped {:?}, expected exactly those of the deleted nodes {:?}", op_str(op), dropped, want)));
                 }
                 for &u in &gone {
                     self.removed_once[u] = true;
